@@ -689,10 +689,9 @@ std::string check_layout(const Layout &l, std::string &key) {
       }
       if (c.size <= 0) { key = "chunk-size"; return strf("region %zu chunk %zu has size %d", ri, ci, c.size); }
       if (!c.links_ok) { key = "chunk-links"; return strf("region %zu chunk %zu: prev/region link inconsistent", ri, ci); }
-      if (!c.used && prev_free) {
-        key = "adjacent-free";
-        return strf("region %zu chunks %zu and %zu are both free (not coalesced)", ri, ci - 1, ci);
-      }
+      // (two adjacent free chunks are not a defect by themselves: an allocator may merge when it next looks;
+      // whether released memory is coalesced *and reused* is judged by behaviour, see the reuse oracle)
+      (void)prev_free;
       prev_free = !c.used;
       expect = c.offset + c.size;
     }
